@@ -20,6 +20,7 @@ from slimta.relay.pipe import PipeRelay
 from slimta.relay.http import HttpRelay
 
 ID = 'C14'
+REALTIME = True      # runs on the wall clock: an unreproducible failure is re-run before it counts (see runner)
 LEVEL = 'fault_enumeration'
 RULE = ('fault enumeration in real time with small timeouts (command 0.05 s, data 0.1 s, connect 0.05 s, pipe/HTTP 0.1 s). server: a peer '
         'that stalls before any byte, after each command of a session, in the middle of a line, inside DATA, inside an AUTH LOGIN/PLAIN '
